@@ -32,6 +32,13 @@ func runC19(c *runCtx) error {
 	r := c.rng
 	wi := 0
 	for len(c.cases) < c.n {
+		if r.Intn(4) == 0 {
+			if err := c19FilesCase(c, r, wi); err != nil {
+				return err
+			}
+			wi++
+			continue
+		}
 		// main history under a simple first policy, then the policy under test
 		m := 1 + r.Intn(4)
 		perm := r.Perm(4)
@@ -130,5 +137,128 @@ func runC19(c *runCtx) error {
 		c.add(term, sideCase{Class: "mergeable/" + oh[:min(len(oh), 28)], Nontrivial: true, Key: keyOf(fmt.Sprint(w.human()) + term),
 			Human: map[string]interface{}{"world": w.human(), "rule": fmt.Sprintf("protect-main thr=%d pids=%v globals=%v sharedkeys=%v", thr, pids, globals, shared), "VerifyMergeable": oh, "recorders": hr}})
 	}
+	return nil
+}
+
+// c19FilesCase: the same question for a policy that also has a file rule; the commits the feature
+// branch brings in touch protected and unprotected paths and are signed by various keys.
+func c19FilesCase(c *runCtx, r *rand.Rand, wi int) error {
+	m := 1 + r.Intn(4)
+	pids := []int{}
+	for _, i := range r.Perm(4)[:m] {
+		pids = append(pids, 101+i)
+	}
+	thr := 1 + r.Intn(min(2, m))
+	fm := 1 + r.Intn(3)
+	fpids := []int{}
+	for _, i := range r.Perm(4)[:fm] {
+		fpids = append(fpids, 101+i)
+	}
+	fpat := []string{"file:src/*", "file:*", "file:src/a b"}[r.Intn(3)]
+	t := &wFile{Version: 1, Signers: []int{2}}
+	t.Name = "targets"
+	t.Defs = map[int][]int{101: {4}, 102: {5}, 103: {6}, 104: {7}}
+	t.Rules = []hRule{{Name: "protect-main", Patterns: []string{"git:" + refMain}, Pids: pids, Thr: thr},
+		{Name: "files", Patterns: []string{fpat}, Pids: fpids, Thr: 1}}
+	pol := &wPolicy{RootVersion: 1, RootKeys: []int{1}, RootThr: 1, TargetsKeys: []int{2}, TargetsThr: 1, HasTargetsRole: true, RootSigners: []int{1}, Files: []*wFile{t}}
+	fileKey := devKey(fpids[0])
+	w := &wWorld{}
+	nextBlob := 1
+	trees := map[string]int{}
+	add := func(files map[string]int, parents []int, signer int) int {
+		id := len(w.Commits) + 1
+		key := c10TreeKey(files)
+		if _, ok := trees[key]; !ok {
+			trees[key] = len(trees) + 1
+		}
+		cp := map[string]int{}
+		for k, v := range files {
+			cp[k] = v
+		}
+		w.Commits = append(w.Commits, wCommit{ID: id, Tree: trees[key], Parents: parents, Files: cp, Signer: signer})
+		return id
+	}
+	files := map[string]int{"README": nextBlob}
+	nextBlob++
+	add(files, nil, fileKey)
+	files["src/a b"] = nextBlob
+	nextBlob++
+	mainTip := add(files, []int{1}, fileKey)
+	w.Events = append(w.Events, wEvent{Kind: "policy", Pol: pol, Signer: 1})
+	// the first push to main: approved as far as the branch rule needs
+	if thr > 1 {
+		w.Events = append(w.Events, wEvent{Kind: "attest", Signer: 4, Auths: []wAuthz{{Ref: refMain, From: 0, To: w.Commits[mainTip-1].Tree,
+			PathRef: refMain, PathFrom: 0, PathTo: w.Commits[mainTip-1].Tree, Signers: []int{devKey(pids[1])}}}})
+	}
+	w.Events = append(w.Events, wEvent{Kind: "ref", Ref: refMain, Commit: mainTip, Signer: devKey(pids[0])})
+	// feature commits
+	parent := mainTip
+	for k := 0; k < 1+r.Intn(3); k++ {
+		p := []string{"src/a b", "src/new", "docs/x", "README", "src/\u00e9"}[r.Intn(5)]
+		files[p] = nextBlob
+		nextBlob++
+		signer := []int{fileKey, fileKey, 4 + r.Intn(4), 8, 0}[r.Intn(5)]
+		parent = add(files, []int{parent}, signer)
+	}
+	featTip := parent
+	mergeTree := w.Commits[featTip-1].Tree
+	w.Events = append(w.Events, wEvent{Kind: "ref", Ref: refFeat, Commit: featTip, Signer: 4 + r.Intn(4)})
+	prevAuths := []wAuthz{}
+	for _, e := range w.Events {
+		if e.Kind == "attest" {
+			prevAuths = e.Auths
+		}
+	}
+	if r.Intn(6) != 0 {
+		ns := 1 + r.Intn(3)
+		signers := []int{}
+		for _, i := range r.Perm(5)[:ns] {
+			signers = append(signers, []int{4, 5, 6, 7, 1}[i])
+		}
+		a := wAuthz{Ref: refMain, From: mainTip, To: mergeTree, PathRef: refMain, PathFrom: mainTip, PathTo: mergeTree, Signers: signers}
+		w.Events = append(w.Events, wEvent{Kind: "attest", Auths: append([]wAuthz{a}, prevAuths...), Signer: 4})
+	}
+	mergeCommit := featTip
+	if r.Intn(2) == 0 {
+		mergeCommit = add(files, []int{mainTip, featTip}, 0)
+	}
+	b, err := buildWorld(w)
+	if err != nil {
+		return err
+	}
+	var obs, oh string
+	need, verr := policy.NewPolicyVerifier(b.m).VerifyMergeable(context.Background(), refMain, refFeat)
+	switch {
+	case verr == nil:
+		obs, oh = fmt.Sprintf("(MPossible %s)", coqBool(need)), fmt.Sprintf("possible, signature needed=%v", need)
+	case errors.Is(verr, policy.ErrVerificationFailed):
+		obs, oh = "MNotPossible", "not possible"
+	default:
+		obs, oh = "MNotPossible", "not possible (error: "+verr.Error()+")"
+	}
+	recs, hr := []string{}, []string{}
+	for _, k := range []int{4, 5, 6, 7, 1, 0} {
+		w2 := &wWorld{Commits: w.Commits, Events: append(append([]wEvent{}, w.Events...), wEvent{Kind: "ref", Ref: refMain, Commit: mergeCommit, Signer: k})}
+		b2, err := buildWorld(w2)
+		if err != nil {
+			return err
+		}
+		tip, e2 := policy.NewPolicyVerifier(b2.m).VerifyRefFull(context.Background(), refMain)
+		vo, vh := b2.voutOf(tip, e2)
+		recs = append(recs, fmt.Sprintf("(%d%%N, %d%%N, %s)", k, mergeCommit, vo))
+		hr = append(hr, fmt.Sprintf("recorded by key %d: %s", k, vh))
+	}
+	g := []string{}
+	hc := []string{}
+	for _, cm := range w.Commits {
+		g = append(g, fmt.Sprintf("(%d%%N, {| fc_tree := %s; fc_parents := %s; fc_signer := %d%%N |})", cm.ID, coqFTree(cm.Files), coqKeys(cm.Parents), cm.Signer))
+		hc = append(hc, fmt.Sprintf("c%d parents=%v signer=%d tree=%s", cm.ID, cm.Parents, cm.Signer, c10TreeKey(cm.Files)))
+	}
+	def := fmt.Sprintf("fw%d", wi)
+	c.defs = append(c.defs, fmt.Sprintf("Definition %s : fworld := {| fw_world := %s; fw_graph := %s |}.", def, w.coq(), coqList(g)))
+	term := fmt.Sprintf("(C19F %s %s %d%%N %d%%N %s %s)", def, coqStr(refMain), mergeTree, featTip, obs, coqList(recs))
+	c.add(term, sideCase{Class: "mergeable+files/" + oh[:min(len(oh), 28)], Nontrivial: true, Key: keyOf(fmt.Sprint(w.human()) + term),
+		Human: map[string]interface{}{"world": w.human(), "commits": hc, "rules": fmt.Sprintf("protect-main thr=%d pids=%v; files %s pids=%v", thr, pids, fpat, fpids),
+			"VerifyMergeable": oh, "recorders": hr}})
 	return nil
 }
